@@ -74,6 +74,27 @@ Section Plain.
     let* x := teq_plain (S (S (List.length r))) a b ([], []) in Ok (fst x).
 End Plain.
 
+(** ** the class, declaratively.  [unfold_ids r fuel a]: the ids met when the definition of [a]
+    is unfolded along struct / variant fields, element types, tuple members, compact inner types
+    and bit-sequence store / order, in depth-first order, WITH repetitions *)
+Definition teq_children (r : registry) (a : N) : list N :=
+  match resolve r a with Some t => def_ids (t_def t) | None => [] end.
+
+Fixpoint unfold_ids (r : registry) (fuel : nat) (a : N) : list N :=
+  match fuel with
+  | O => [a]
+  | S f => a :: flat_map (unfold_ids r f) (teq_children r a)
+  end.
+
+Definition plain_fuel (r : registry) : nat := S (S (List.length r)).
+
+(** no id is reached twice from [a] (no sharing, no recursion) *)
+Definition tree_like (r : registry) (a : N) : Prop := NoDup (unfold_ids r (plain_fuel r) a).
+
+(** every type reached from [a] has no non-skipped type parameter *)
+Definition no_params_reachable (r : registry) (a : N) : Prop :=
+  forall x t, In x (unfold_ids r (plain_fuel r) a) -> resolve r x = Some t -> param_ids t = [].
+
 (** the part of a shape that [types_equal] compares: the [Box] flag of a field (read off the
     recorded type name, which the comparison ignores outside generics) and the variant indices
     (which it never compares) are forgotten *)
